@@ -9,6 +9,10 @@ Definition current_facts : facts := {|
   f_get_admin_key := get_admin_key;
   f_get_authority_key := get_authority_key;
   f_has_denom_key := has_denom_key;
+  f_get_admin_body := get_admin_body;
+  f_get_authority_body := get_authority_body;
+  f_mutable_fields := keeper_mutable_fields;
+  f_mutable_vars := keeper_mutable_package_vars;
   f_reject_conditions := to_struct_reject_conditions;
   f_denom_format := denom_format |}.
 
@@ -17,7 +21,10 @@ Definition current_facts : facts := {|
     write; mint-to / burn-from are tested against the blocked addresses; creation tests for an
     existing denom first and builds the denom from msg.Sender; ChangeAdmin writes the successor
     unconditionally under the raw key; the admin lookups key by the raw string; DenomStr.ToStruct
-    rejects everything but three non-empty sections starting with "tf".  A check moved into a helper
+    rejects everything but three non-empty sections starting with "tf"; GetAdmin /
+    GetDenomAuthorityMetadata are a single store read, and neither Keeper nor StoreAPI nor a package
+    variable can hold state outside the store (no pointer / map / slice / chan / func / sync field), so
+    rolling back the store rolls back everything the handlers consult.  A check moved into a helper
     of the package renders identically; a dropped / moved / re-targeted check, an extra condition
     before a write, a changed key or prefix no longer checks. *)
 Theorem C15_current_handlers_match_model : facts_ok current_facts = true.
